@@ -59,6 +59,12 @@ def path_patterns(tier='quick', alpha='a'):
             for tail in ([star], [q], [a], [gs, a], [gs, star], [gs, (L('b'),)], [(('ext', '@', ((('star',),),)),)], [(('br', True, (('ch', 'b'),)), ('star',))]):
                 pats.append(mkpath(pre + [g1, g2] + tail))
             pats.append(mkpath(pre + [g1, g2, star], trail=True))
+    # the separator written as an escaped slash: a separator like any other (the next token stands at a segment start)
+    esep = ('sep', 'esc')
+    for s in segs[:12] + segs[16:20]:
+        for first in ((L(alpha),), (('star',),)):
+            pats.append(tuple(first) + (esep,) + tuple(s))
+    pats += [(L(alpha), esep, ('sep',), L('b')), (L(alpha), ('sep',), esep, L('b')), (L(alpha), esep, ('star',), esep), (('gs',), esep, ('star',)), (L(alpha), esep, ('gs',), esep, ('q',))]
     # `/` inside brackets and groups: only generated where the statement is definite (none here)
     return list(dict.fromkeys(pats))
 
